@@ -180,6 +180,8 @@ def substitute_defs(func_node, expr: ast.expr, stop: Set[str], depth: int = 6) -
     replaced by its defining expression, recursively."""
     import copy
     la = local_assignments(func_node)
+    a_ = func_node.args
+    stop = set(stop) | {x.arg for x in a_.posonlyargs + a_.args + a_.kwonlyargs}     # parameters are never substituted
 
     class Sub(ast.NodeTransformer):
         def __init__(self, d):
